@@ -347,7 +347,7 @@ def conclude(mod, prop, tier, seed, recs, planned, dead_workers, t_start, extra_
 
     EVIDENCE_DIR.mkdir(exist_ok=True)
     REPLAY_DIR.mkdir(exist_ok=True)
-    for old in REPLAY_DIR.glob(f"{prop}-{tier}-s{seed}-*.json"):
+    for old in list(REPLAY_DIR.glob(f"{prop}-{tier}-s{seed}-*.json")) + list(REPLAY_DIR.glob(f"{prop}-{tier}-s{seed}-*.jsonl")):
         old.unlink()
     replay_paths = []
     seen_new = set()
@@ -365,6 +365,10 @@ def conclude(mod, prop, tier, seed, recs, planned, dead_workers, t_start, extra_
                  "msg": v["msg"], "detail": v["detail"], "input": r["sample"]}, indent=1))
         replay_paths.append((p, v))
 
+    if viol_new:
+        with open(REPLAY_DIR / f"{prop}-{tier}-s{seed}-all-new-violations.jsonl", "w") as f:
+            for r, v in viol_new:
+                f.write(json.dumps({"idx": r["idx"], "key": v["key"], "msg": v["msg"]}) + "\n")
     coverage = {
         "evaluations": executed,
         "distinct_nontrivial": len(nontrivial_fps),
